@@ -44,6 +44,10 @@ def cases(tier):
             for has_custom in (False, True):
                 for nil in (False, True):
                     yield ('ns', ns_arg, mode_at, has_custom, nil)
+    # (c) all_leaves / tree_is_leaf with value-based predicates over sequences of same-typed elements
+    for seq in itertools.product(range(5), repeat=3):
+        for pred in ('len1', 'first_is_0', 'none'):
+            yield ('all_leaves', seq, pred)
     # (b) iterable kinds
     for ck in ('tuple', 'list', 'gen', 'iter', 'map'):
         for ek in MAKERS:
@@ -56,8 +60,25 @@ def outcome(f):
     except Exception as e:
         return ('exc', type(e).__name__)
 
+ELEMS = [lambda: (1,), lambda: (2, 3), lambda: [0], lambda: [0, 1], lambda: 7]
+PREDS = {'len1': lambda x: isinstance(x, (tuple, list)) and len(x) == 1,
+         'first_is_0': lambda x: isinstance(x, (tuple, list)) and len(x) > 0 and x[0] == 0,
+         'none': None}
+
 def check(spec):
     bad = []
+    if spec[0] == 'all_leaves':
+        _, seq, pname = spec
+        xs = [ELEMS[i]() for i in seq]
+        pred = PREDS[pname]
+        each = [optree.tree_is_leaf(x, is_leaf=pred) for x in xs]
+        flat = [optree.tree_leaves(x, is_leaf=pred) == [x] and optree.tree_structure(x, is_leaf=pred).is_leaf() for x in xs]
+        got = optree.all_leaves(xs, is_leaf=pred)
+        if each != flat:
+            bad.append(('C03.is_leaf_agrees_with_flatten', f'tree_is_leaf gives {each!r}, flatten-based leafness {flat!r} for {xs!r} with predicate {pname}'))
+        if got != all(each):
+            bad.append(('C03.all_leaves_is_the_conjunction_of_is_leaf', f'all_leaves({xs!r}, is_leaf={pname}) = {got}, element-wise tree_is_leaf = {each!r}'))
+        return bad
     if spec[0] == 'ns':
         _, ns_arg, mode_at, has_custom, nil = spec
         tree = {'b': 1, 'a': (2, None, Node2(3, 4) if has_custom else [3, 4])}
